@@ -250,7 +250,7 @@ def match_known(opens, prop_id, key):
 # ----------------------------------------------------------------------------------------------
 
 def write_replay(prop_id, key, v, seed, tier):
-    d = os.path.join(VERIF_DIR, 'replays', prop_id)
+    d = os.path.join(os.environ.get('VERIF_REPLAY_DIR') or os.path.join(VERIF_DIR, 'replays'), prop_id)
     os.makedirs(d, exist_ok=True)
     name = re.sub(r'[^A-Za-z0-9_.-]+', '_', key)[:80] + '_' + hashlib.sha1(key.encode()).hexdigest()[:8] + '.json'
     path = os.path.join(d, name)
@@ -481,8 +481,9 @@ def _run_jobs(prop, prop_name, tier, seed, t0):
         'wall_s': round(time.time() - t0, 2),
         'violations': len(violation_lines),
     }
-    os.makedirs(os.path.join(VERIF_DIR, 'evidence'), exist_ok=True)
-    with open(os.path.join(VERIF_DIR, 'evidence', prop.ID + '.json'), 'w', encoding='utf-8') as f:
+    evdir = os.environ.get('VERIF_EVIDENCE_DIR') or os.path.join(VERIF_DIR, 'evidence')
+    os.makedirs(evdir, exist_ok=True)
+    with open(os.path.join(evdir, prop.ID + '.json'), 'w', encoding='utf-8') as f:
         json.dump(evidence, f, indent=1, sort_keys=True, default=str)
 
     print('%s %s seed=%s: %d cases, %d distinct non-trivial, %.1fs' % (
